@@ -128,7 +128,7 @@ def corner_table():
                 marker = object()
                 return (lambda: deco(7, **{kwname: marker})), log, (7, marker), min(fails + 1, 4)
             t.append((f'@retry callee with a parameter called {kwname}, passed by keyword, {fails} listed failures first', build))
-    for kind in ('partial', 'callable object', 'bound method of a callable object'):
+    for kind in ('partial', 'callable object', 'bound method of a callable object', 'bound method of an object whose __repr__ raises'):
         for fails in (0, 2, 9):
             def build(kind=kind, fails=fails):
                 log = []
@@ -142,8 +142,16 @@ def corner_table():
                 class Obj:
                     def __call__(self, x, y=None):
                         return body(x, y)
+                class BadRepr:
+                    def __repr__(self):
+                        raise RuntimeError('repr boom')
+
+                    def m(self, x, y=None):
+                        return body(x, y)
                 marker = object()
-                if kind == 'partial':
+                if kind.endswith('__repr__ raises'):
+                    fn, call_args = BadRepr().m, (7,)
+                elif kind == 'partial':
                     fn, call_args = functools.partial(body, 7), ()
                 elif kind == 'callable object':
                     fn, call_args = Obj(), (7,)
